@@ -380,7 +380,7 @@ impl Check for C01 {
         finalize_margins(items, cov);
     }
     fn replay(&self, replay: &Value) -> Result<(bool, String), String> {
-        replay_by_label(self, replay, items01(Tier::Thorough).len(), "C01")
+        crate::frame::replay_by_item(self, replay)
     }
     fn rule(&self, _tier: Tier) -> String {
         "full product of window(6) x sinc_len x f_cutoff {calculate_cutoff, 0.8} x (interpolation, oversampling) pairs x ratio x tone position (fractions of the passband edge f_cutoff*min(1,r) - (1-calculate_cutoff)) x {FixedIn 500, FixedOut 512, FixedIn 37} x {f64, f32}; FFT: rate pairs x requested chunk x {FixedIn, FixedOut, FixedInOut} x tones x T. Oracles with the property's numbers: amplitude within 1% / 0.1% + beta, residual peak <= beta*A with beta = max(window leakage, 2*textbook interpolation bound), one delay for all tones of a configuration, superposition. Non-trivial = more than 500 frames fitted".into()
@@ -723,7 +723,7 @@ impl Check for C02 {
         finalize_margins(items, cov);
     }
     fn replay(&self, replay: &Value) -> Result<(bool, String), String> {
-        replay_by_label(self, replay, items02(Tier::Thorough).len(), "C02")
+        crate::frame::replay_by_item(self, replay)
     }
     fn rule(&self, _tier: Tier) -> String {
         "(a) calculate_cutoff: every npoints in [32,2048] (quick: every 48th) x 6 windows x {f32,f64}: the 4x oversampled table of the real ScalarInterpolator built with f_cutoff = calculate_cutoff, read with unit impulses, DTFT on a 1/256-Nyquist grid: -6 dB point at f_cutoff, everything from the Nyquist frequency upwards below the window's rejection figure; (b) sinc end to end: window x sinc_len x f_cutoff {calculate_cutoff, 0.8} x ratio x {FixedIn, FixedOut} x 5 tones between the stopband edge and the input Nyquist (sqrt(2)*RMS of the output <= rejection figure) and, when upsampling, 3 passband tones whose residual after removing the fitted tone is held to the same figure; (c) FFT: rate pairs x requested chunk x 3 types, tones above the lower Nyquist / images below -100 dB. Non-trivial = every evaluated tone (configurations without any stopband tone below the input Nyquist are counted as vacuous)".into()
